@@ -34,7 +34,7 @@ def confirm(seedroot, sid, var, base_pass):
     meta = json.load(open(os.path.join(d, "meta.json")))
     cmd = meta["demo_cmd"]
     m = re.search(r"cp \S+ (\S+)/demo_test\.go", cmd)
-    dest = m.group(1)
+    dest = re.sub(r"^/tmp/seedwt/C\d\d/", "", m.group(1))  # round 9: agents wrote absolute paths of their own worktree
     t = re.search(r"(go test [^;&)#\n]*)", cmd).group(1).strip()
     wt = os.path.join(ROOT, f"{sid}-{var}")
     res = {"seed": f"{sid}/{var}", "dir": d, "demo_dir": dest, "demo_test_cmd": t}
